@@ -179,15 +179,7 @@ def run(tier):
     common.pipeline_runs(rep, binary, PROP, "delivery", runs=300 if thorough else 60)
     # BufferBound for UNBOUNDED parameters: the TLAPS proof of the inductive invariant of the length-only machine
     # (MC_C07 checks that every byte-level transition is a step of it: RefinesDefragLen)
-    import shutil, subprocess, re
-    pd = vlib.workdir(PROP, "tlaps")
-    p = subprocess.run(["timeout", "300", "tlapm", "--threads", "4", "DefragLen.tla"], cwd=pd, capture_output=True, text=True)
-    m = re.search(r"All (\d+) obligations? proved", p.stdout + p.stderr)
-    if not m:
-        raise vlib.ToolError("tlapm did not prove DefragLen!Safety: %s" % (p.stdout + p.stderr)[-800:])
-    rep.cov["tlaps"] = {"module": "DefragLen.tla", "theorem": "Safety (Spec => [](TypeOK /\\ BufferBound)), unbounded MaxRecordData > MaxRecordLen",
-                        "obligations": int(m.group(1)), "discharged": int(m.group(1))}
-    shutil.rmtree(os.path.join(pd, ".tlacache"), ignore_errors=True)
+    common.tlaps_proof(rep, PROP, "DefragLen", "Safety (Spec => [](TypeOK /\\ BufferBound)), unbounded MaxRecordData > MaxRecordLen")
     uncovered = [p for p in ["Reset", "NoCopy_Refuse", "NoCopy_NeedMore", "NoCopy_Parse", "First_Complete", "First_StartDefrag",
                              "First_Error", "Cont_WrongType", "Cont_TooLarge", "Cont_Complete", "Cont_NeedMore", "Cont_Error"] if cover[p] == 0]
     if uncovered:
